@@ -204,3 +204,39 @@ Proof.
       [apply reach_init | vm_compute; reflexivity].
   - vm_compute. repeat split.
 Qed.
+
+(** ---- non-vacuity, the two theorems whose premises no example above meets (wp-audit) ---- *)
+(** C12_schedule_independent: two runs of [ex_work] under DIFFERENT schedules (flusher working while requests
+    arrive, several batches, timer firing - versus everything enqueued first and flushed once after close) with the
+    same enqueue order: both reachable, both Done, same [enq] *)
+Definition ex_sched_a : list choice :=
+  [CProduce 0; CCheck false; CLock; CSwap; CProduce 0; CProduce 1; CExec; CWait; CWake; CCheck false;
+   CProduce 1; CLock; CSwap; CExec; CProduce 0; CExec; CExec; CProduce 1; CClose; CWait; CWake;
+   CCheck true; CLock; CSwap; CExec; CExec; CDone].
+Definition ex_sched_b : list choice :=
+  [CProduce 0; CProduce 0; CProduce 1; CProduce 1; CProduce 0; CProduce 1; CClose;
+   CCheck true; CLock; CSwap; CExec; CExec; CExec; CExec; CExec; CExec; CDone].
+Example C12_schedule_independent_nonvacuous :
+  exists s s', run_schedule false ex_sched_a (init 2 ex_work) = Some s /\
+               run_schedule false ex_sched_b (init 2 ex_work) = Some s' /\
+               reach 2 ex_work s /\ reach 2 ex_work s' /\ fl s = Done /\ fl s' = Done /\ enq s = enq s' /\
+               length (enq s) = 6 /\ ex_sched_a <> ex_sched_b.
+Proof.
+  do 2 eexists. split; [vm_compute; reflexivity|]. split; [vm_compute; reflexivity|].
+  split; [eapply (run_schedule_reach 2 ex_work false ex_sched_a); [apply reach_init|vm_compute; reflexivity]|].
+  split; [eapply (run_schedule_reach 2 ex_work false ex_sched_b); [apply reach_init|vm_compute; reflexivity]|].
+  vm_compute. repeat split. discriminate.
+Qed.
+
+(** C12_single_producer: one caller thread, a failing storage call in the middle, nothing refused at the caller *)
+Example C12_single_producer_nonvacuous :
+  let l := [Op 0 0 (SetData 1%N 10%N) false; Op 1 0 (AddMeta [(2%N, 5%N)]) true; Op 2 0 (SetData 1%N 11%N) false; Op 3 0 Save false] in
+  exists s, reach 1 [l] s /\ fl s = Done /\ forallb snd (hist s) = true /\
+            map snd (applied s) = [true; false; true; true] /\ length (saved (wstore s)) = 1.
+Proof.
+  eexists. split.
+  - eapply (run_schedule_reach 1 _ true
+      [CProduce 0; CCheck false; CLock; CSwap; CProduce 0; CExec; CProduce 0; CWait; CWake; CCheck false; CLock; CSwap;
+       CProduce 0; CClose; CExec; CExec; CWait; CWake; CCheck true; CLock; CSwap; CExec; CDone]); [apply reach_init | vm_compute; reflexivity].
+  - vm_compute. repeat split.
+Qed.
